@@ -7,55 +7,83 @@ mod verif {
     // instruction its own (file, line, function) triple.  <= 4 lines (labels interleaved),
     // symbolic triples.
     fn lookup(table: &Vec<(BytecodeIndex, u32)>, pc: u32) -> u32 {
-        // same rule as vm::pc_to_error_location (checked against the real one in c32_pc_to_error_location)
-        let idx = match table.binary_search_by_key(&pc, |p| p.0) {
-            Ok(i) | Err(i) => i,
-        };
-        let idx = if idx >= 1 { idx - 1 } else { idx };
-        table[idx].1
-    }
-
-    #[kani::proof]
-    #[kani::unwind(7)]
-    fn c32_source_tables_roundtrip() {
-        let mut st = TranslatorState::default();
-        let trip: [(u16, u8, u8); 4] = kani::any();
-        let label_at: usize = kani::any();
-        kani::assume(label_at <= 4);
-        let n: usize = kani::any();
-        kani::assume(n >= 1 && n <= 4);
+        // the VM's rule (vm::pc_to_error_location, binary search; checked against this specification on symbolic tables in
+        // c32_pc_to_error_location): the entry with the greatest start index below pc, the first entry if there is none
+        let mut best = table[0].1;
         let mut k = 0;
-        while k < 4 {
-            if k == label_at {
-                st.lines.push(Line::Label(String::new()));
-            }
-            if k < n {
-                st.lines.push(Line::Instr {
-                    instr: Instr::Pop,
-                    lineno: trip[k].0 as usize,
-                    file_id: trip[k].1 as u32,
-                    func_id: trip[k].2 as u32,
-                });
+        while k < table.len() {
+            if (table[k].0 as u32) < pc {
+                best = table[k].1;
             }
             k += 1;
         }
-        let tr = std::mem::MaybeUninit::<Translator>::uninit();
-        let tr_ref: &Translator = unsafe { &*tr.as_ptr() }; // `self` is not used by the function
-        tr_ref.create_source_location_tables(&mut st);
-        let mut i = 0;
-        while i < 4 {
-            if i < n {
-                // instruction i fails => the VM looks up pc = i + 1
-                let pc = (i + 1) as u32;
-                assert!(lookup(&st.lineno_table, pc) == trip[i].0 as u32, "line of instruction i");
-                assert!(lookup(&st.filename_table, pc) == trip[i].1 as u32, "file of instruction i");
-                assert!(lookup(&st.function_name_table, pc) == trip[i].2 as u32, "function of instruction i");
-            }
-            i += 1;
-        }
-        kani::cover!(n == 4 && trip[0].0 != trip[1].0 && trip[1].0 == trip[2].0 && trip[2].0 != trip[3].0, "req: runs of equal and different lines");
-        std::mem::forget(st);
+        best
     }
+
+    // number of lines and label position are concrete per harness (a Vec<Line> of symbolic length does not finish under CBMC:
+    // measured, solver gave up at 12 GB); the (line, file, function) triples are symbolic.
+    macro_rules! tables_harness {
+        ($name:ident, $n:expr, $label_at:expr, $which:expr) => {
+            #[kani::proof]
+            #[kani::unwind(7)]
+            fn $name() {
+                let mut st = TranslatorState::default();
+                // one of the three tables is symbolic per harness (they are built by three copies of the same code; three
+                // Vecs of symbolic length at once did not finish: measured), the other two components are constant
+                let sym: [u16; 4] = kani::any();
+                let mut trip: [(u16, u8, u8); 4] = [(7, 1, 2); 4];
+                let mut q = 0;
+                while q < 4 {
+                    kani::assume(sym[q] < 250);
+                    if $which == 0 { trip[q].0 = sym[q]; } else if $which == 1 { trip[q].1 = sym[q] as u8; } else { trip[q].2 = sym[q] as u8; }
+                    q += 1;
+                }
+                let n: usize = $n;
+                let label_at: usize = $label_at;
+                // fixed capacities: no reallocation inside the function under analysis
+                st.lines.reserve(8);
+                st.lineno_table.reserve(8);
+                st.filename_table.reserve(8);
+                st.function_name_table.reserve(8);
+                let mut k = 0;
+                while k < 4 {
+                    if k == label_at {
+                        st.lines.push(Line::Label(String::new()));
+                    }
+                    if k < n {
+                        st.lines.push(Line::Instr {
+                            instr: Instr::Pop,
+                            lineno: trip[k].0 as usize,
+                            file_id: trip[k].1 as u32,
+                            func_id: trip[k].2 as u32,
+                        });
+                    }
+                    k += 1;
+                }
+                let tr = std::mem::MaybeUninit::<Translator>::uninit();
+                let tr_ref: &Translator = unsafe { &*tr.as_ptr() }; // `self` is not used by the function
+                tr_ref.create_source_location_tables(&mut st);
+                let mut i = 0;
+                while i < 4 {
+                    if i < n {
+                        // instruction i fails => the VM looks up pc = i + 1
+                        let pc = (i + 1) as u32;
+                        assert!(lookup(&st.lineno_table, pc) == trip[i].0 as u32, "line of instruction i");
+                        assert!(lookup(&st.filename_table, pc) == trip[i].1 as u32, "file of instruction i");
+                        assert!(lookup(&st.function_name_table, pc) == trip[i].2 as u32, "function of instruction i");
+                    }
+                    i += 1;
+                }
+                kani::cover!(n < 4 || (sym[0] != sym[1] && sym[1] == sym[2] && sym[2] != sym[3]), "req: runs of equal and different entries");
+                std::mem::forget(st);
+            }
+        };
+    }
+    tables_harness!(c32_tables_line_4_nolabel, 4, 9, 0);
+    tables_harness!(c32_tables_line_4_label2, 4, 2, 0);
+    tables_harness!(c32_tables_file_4_label0, 4, 0, 1);
+    tables_harness!(c32_tables_func_4_nolabel, 4, 9, 2);
+    tables_harness!(c32_tables_line_1, 1, 1, 0);
 
     include!(concat!(env!("ABRA_VERIF_HARNESS_DIR"), "/translate_playback.rs"));
 }
